@@ -1232,8 +1232,14 @@ impl Rasn {
             quote!( #field_name: #def_method_name() )
         });
 
+        // no_std compliant bindings cannot name the std crate
+        let default_trait = if self.config.no_std_compliant_bindings {
+            quote!(core::default::Default)
+        } else {
+            quote!(std::default::Default)
+        };
         quote! {
-            impl std::default::Default for #name_ident {
+            impl #default_trait for #name_ident {
                 fn default() -> Self {
                     Self { #(#field_inits),* }
                 }
